@@ -14,7 +14,9 @@ def run(repo, R):
                    "both back-ends receive the shell's own attributes of the same role")
     R.rule("PIPE", "one-index and two-index assembly apply the same per-index pipeline (contract A: norm once, own transform iff spherical, segment-major)")
     R.rule("NORMSIB", "the in-kernel primitive normalisations (one- and two-electron kernels) are the same function as norm_prim_cart")
-    runs = run_all(repo, R, rule="SLOT")
+    # the property names the overlap, moment and kinetic-energy matrices (and densities built on the evaluations): the other operators
+    # (point charge, electron repulsion, momentum, angular momentum) have no evaluated counterpart here
+    runs = run_all(repo, R, rule="SLOT", names=("overlap", "moment", "kinetic"))
     n = 0
     for name, f, ex in runs:
         if ex is None:
@@ -27,7 +29,7 @@ def run(repo, R):
         R.check(ok, "SLOT", f.site, f"[{name}] type K", f"[{name}] the kernel returns axes {ret.labels}; both halves of the library index functions as (segment, component) "
                 f"of the shells in argument order", where=f.where(), expected=str(want), found=str(ret.labels))
         n += 1
-    R.floor("SLOT", n, 6, "integral kernel runs")
+    R.floor("SLOT", n, 3, "integral kernel runs")
     c05.run_slots(repo, R)
     # assembly pipelines
     from .c09 import run_assembly
@@ -61,10 +63,42 @@ def run(repo, R):
     R.check(sp.simplify(got / want - 1) == 0, "NORMSIB", f.site, "norm_prim_cart == (2a/pi)^(3/4) (4a)^(l/2) / sqrt(prod_c (2 n_c - 1)!!)",
             "norm_prim_cart is no longer the closed form that the one- and two-electron kernels apply in two pieces (exponent part before the contraction, "
             "component part at the end): integrals and evaluations would be normalised differently", where=f.where(), expected=str(want), found=str(got))
+    # ---- the two halves themselves.  Integrating exact evaluations reproduces exact integrals; a defect on one side only (what a
+    # single change produces) breaks the agreement.  So every finding of the exactness checks of the operators this property names
+    # is a finding here too: overlap (C01), kinetic energy (C02), moments (C07) on the integral side; function values and first
+    # derivatives (C05, orders <= 1) and the density / positive-definite kinetic-energy density (C06) on the evaluation side.
+    from ..report import compose
+    from . import c01, c02, c07, c06
+
+    def c05_keep(fd):
+        txt = f"{fd.site} {fd.construct} {fd.message}"
+        if "_second_derivative" in txt or "order 2" in txt:
+            return False  # second derivatives are not used by any quantity this property names
+        if fd.rule.endswith("/GUARD-DOMAIN"):
+            return False  # concerns requests of order > 2
+        if fd.rule.endswith("/GENERAL") or fd.rule.endswith("/DEF"):
+            import re
+            pairs = re.findall(r"\((\d+), (\d+)\)", fd.message)
+            if pairs and all(int(m_) >= 2 for m_, _n in pairs):
+                return False
+        return True
+
+    c06_sites = ("evaluate_density", "evaluate_density_using_evaluated_orbs", "evaluate_deriv_reduced_density_matrix",
+                 "evaluate_posdef_kinetic_energy_density")
+
+    def c06_keep(fd):
+        return fd.site.split(".")[-1] in c06_sites
+
+    compose(R, "C01", c01.run, repo, why="products of evaluated functions integrate to the overlap matrix: the overlap must be exact")
+    compose(R, "C02", c02.run, repo, why="half the products of gradients integrate to the kinetic matrix: the kinetic energy integrals must be exact")
+    compose(R, "C07", c07.run, repo, why="products of evaluated functions times powers of r integrate to the moment matrices")
+    compose(R, "C05", c05.run, repo, keep=c05_keep, why="function values and first derivatives are what is integrated (orders <= 1)")
+    compose(R, "C06", c06.run, repo, keep=c06_keep, why="the density integrates to tr(DS), the positive-definite kinetic-energy density to tr(DT)")
     R.assumptions += ["C03/C04 establish that the kernels apply exactly (2a/pi)^(3/4) (4a)^(l/2) and 1/sqrt(prod (2 n_c - 1)!!) per shell",
                       "the quadrature statement of the property is numerical"]
-    return ("STRUCTURAL PREMISE ONLY: both halves of the library take primitive norms, component order, contraction norms and the "
-            "Cartesian->spherical matrix from the same shell API and apply them identically - all nine integral-kernel runs are well-typed "
+    return ("STRUCTURAL PREMISE + COMPOSED EXACTNESS (C01, C02, C07; C05 orders <= 1; C06 density / positive-definite kinetic-energy "
+            "density - see coverage.composed): both halves of the library take primitive norms, component order, contraction norms and the "
+            "Cartesian->spherical matrix from the same shell API and apply them identically - the overlap, moment and kinetic-energy kernel runs are well-typed "
             "with type K (a wrong shell's attribute in a slot is a provenance mismatch), both evaluation back-ends receive the shell's own "
             "attributes in matching slots, the one-index and two-index assemblies satisfy the same per-index contract A, and norm_prim_cart "
             "is symbolically the closed form that the one-/two-electron kernels apply in two pieces. The quadrature statement itself "
